@@ -105,3 +105,41 @@ Proof.
   - intros. exact (conj (gen_tmbase_calls_eq c W M K N) (conj (gen_tmbase_masked_calls_eq c W M K N)
       (conj (gen_tmbase_loops_eq c W M K N) (gen_tmbase_masked_loops_eq c W M K N)))).
 Qed.
+
+(** * Triangular inversion (tinverse; also used by the block LU strategies): the recursive block formulas of
+    ut_inverse_dispatcher / lut_inverse_dispatcher as written are two-sided inverses in any block algebra, for any
+    split point; and in every recursive size class of the three dispatchers, as translated from unary_inv_op.h on
+    this run, the split point N satisfies 0 < N < M (both blocks non-empty and strictly smaller), the classes tiling
+    (4, 256] without gaps. *)
+From FastorV Require Import Proofs.TriBlockProofs.
+Theorem C10_triangular_block_inversion :
+  forall (R : Type) (add mul : R -> R -> R) (neg : R -> R) (zero one : R),
+    (forall x y, add x y = add y x) -> (forall x y z, add x (add y z) = add (add x y) z) ->
+    (forall x, add zero x = x) -> (forall x, add x (neg x) = zero) ->
+    (forall x y z, mul x (mul y z) = mul (mul x y) z) -> (forall x, mul one x = x) -> (forall x, mul x one = x) ->
+    (forall x y z, mul x (add y z) = add (mul x y) (mul x z)) -> (forall x y z, mul (add x y) z = add (mul x z) (mul y z)) ->
+  forall a b c d ia id : R,
+    mul ia a = one -> mul a ia = one -> mul id d = one -> mul d id = one ->
+    let ub := neg (mul ia (mul b id)) in let lc := neg (mul id (mul c ia)) in
+    (* upper: [a b; 0 d] * [ia ub; 0 id] = I = [ia ub; 0 id] * [a b; 0 d] *)
+    (add (mul a ia) (mul b zero) = one /\ add (mul a ub) (mul b id) = zero /\ add (mul zero ia) (mul d zero) = zero /\ add (mul zero ub) (mul d id) = one) /\
+    (add (mul ia a) (mul ub zero) = one /\ add (mul ia b) (mul ub d) = zero /\ add (mul zero a) (mul id zero) = zero /\ add (mul zero b) (mul id d) = one) /\
+    (* lower: [a 0; c d] * [ia 0; lc id] = I = [ia 0; lc id] * [a 0; c d] *)
+    (add (mul a ia) (mul zero lc) = one /\ add (mul a zero) (mul zero id) = zero /\ add (mul c ia) (mul d lc) = zero /\ add (mul c zero) (mul d id) = one) /\
+    (add (mul ia a) (mul zero c) = one /\ add (mul ia zero) (mul zero d) = zero /\ add (mul lc a) (mul id c) = zero /\ add (mul lc zero) (mul id d) = one).
+Proof.
+  intros R add mul neg zero one addC addA add0 addN mulA mul1l mul1r distL distR a b c d ia id Hal Har Hdl Hdr.
+  split; [|split; [|split]].
+  - eapply ut_right_inverse; eassumption.
+  - eapply ut_left_inverse; eassumption.
+  - eapply lt_right_inverse; eassumption.
+  - eapply lt_left_inverse; eassumption.
+Qed.
+Print Assumptions C10_triangular_block_inversion.
+
+Theorem C10_source_split_points :
+  forall M,
+    Forall (fun '(disp, lo, hi, n) => lo < M <= hi -> 0 < n < M) (gen_inverse_splits M) /\
+    map (fun '(disp, lo, hi, n) => (disp, lo, hi)) (gen_inverse_splits M) =
+    flat_map (fun disp => [(disp, 4, 8); (disp, 8, 16); (disp, 16, 32); (disp, 32, 64); (disp, 64, 128); (disp, 128, 256)]) [1; 2; 0].
+Proof. exact gen_inverse_splits_ok. Qed.
